@@ -6,6 +6,7 @@ mod canon;
 mod ops_types;
 mod ops_sink;
 mod ops_seq;
+mod ops_io;
 
 #[global_allocator]
 static GLOBAL: ops_seq::Counting = ops_seq::Counting;
@@ -29,6 +30,10 @@ fn handler(op: &str) -> Option<Handler> {
         "SEQ" => Some(ops_seq::seq_handler),
         "SZ" => Some(ops_seq::sz_handler),
         "DROPS" => Some(ops_seq::drops_handler),
+        "IOR" => Some(ops_io::ior_handler),
+        "IOW" => Some(ops_io::iow_handler),
+        "AIOR" => Some(ops_io::aior_handler),
+        "AIOW" => Some(ops_io::aiow_handler),
         _ => None
     }
 }
